@@ -10,6 +10,7 @@ Theorems of coq/C18 + correspondence / property-on-impl for
 import sys, os, math
 sys.path.insert(0, os.path.dirname(__file__))
 from common import *
+if hasattr(sys, "set_int_max_str_digits"): sys.set_int_max_str_digits(0)
 
 def fl(x): return None if x is None else float(x)
 def vd(v): return [undy(x) for x in v]
@@ -157,6 +158,328 @@ def check_pca(ctx, py, im, mo, site):
                 site.spec.append(('%s:factors-not-orthonormal' % name, 'sample covariance of factors (%d,%d) = %.12g' % (a, b, G[a][b])))
                 return
 
+# ----------------------------------------------------------------------------- kind 1: Hermite polynomials
+from decimal import Decimal, getcontext
+getcontext().prec = 80
+_SQF = {}
+def sqrt_fact(k):
+    if k not in _SQF: _SQF[k] = Decimal(math.factorial(k)).sqrt()
+    return _SQF[k]
+
+def gen_hermite(ctx, rng, quick):
+    y = Fraction(rng.randint(-8 * 64, 8 * 64), rng.choice([1, 2, 4, 64, 1024])) if rng.random() < .9 else Fraction(rng.choice([0, 1, -1, 10, -10]))
+    if abs(y) > 10: y = y / 64
+    r = rng.choice([1, 1, 1, Fraction(1, 2), Fraction(3, 4), Fraction(7, 8)])
+    n = rng.choice([1, 2, 3, 5, 10, 20, 30, 40, 60])
+    ctx.dist('hermite_n%d' % n)
+    return {'y': y, 'r': r, 'n': n}, [1, dy(y), dy(r), n]
+
+def hermite_model_case(py, im):
+    c = py['case']
+    return [1, c[1], c[2], c[3], [dy(math.sqrt(k)) for k in range(c[3])]]
+
+def check_hermite(ctx, py, im, mo, site):
+    c = py['case']; n = c[3]
+    impl = vd(im[0]); code = vq(mo[0]); unn = vq(mo[1])
+    if len(impl) != n: site.spec.append(('hermitePolynomials:size', 'returned %d values for nbpoly = %d' % (len(impl), n))); return
+    run = 0.0
+    for k in range(n):
+        exact = Decimal(unn[k].numerator) / Decimal(unn[k].denominator) / sqrt_fact(k)    # h_k(y) r^k / sqrt(k!)
+        run = max(run, abs(float(exact)))
+        if abs(Decimal(float(impl[k])) - exact) > Decimal(1e-12) * Decimal(n) * Decimal(abs(float(exact)) + run):
+            site.spec.append(('hermitePolynomials:recurrence', 'H_%d(%s) r^%d: impl %.15g, h_%d(y) r^k / sqrt(%d!) = %.15g (h from the exact three-term recurrence proved orthogonal)'
+                              % (k, float(undy(c[1])), k, float(impl[k]), k, k, float(exact))))
+            return
+        site.close('hermite code recurrence[%d]' % k, impl[k], code[k], 1e-12 * n, run)
+
+# ----------------------------------------------------------------------------- kind 2: AnamHermite
+def Phi(x): return 0.5 * math.erfc(-x / math.sqrt(2.0))
+
+def gen_anam(ctx, rng, quick):
+    mode = 0 if rng.random() < .8 else 1
+    nb = rng.choice([5, 8, 12, 20, 30, 40, 60]) if mode == 0 else rng.choice([3, 5, 8, 12])
+    flagBound = 1 if (mode == 0 and rng.random() < .85) else 0
+    n = rng.randint(12, 60 if quick else 200)
+    dist = rng.choice(['lognormal', 'squares', 'ties', 'uniform', 'bimodal'])
+    data = []
+    for _ in range(n):
+        if dist == 'lognormal': v = Fraction(int(math.exp(rng.gauss(0, 1)) * 64), 64)
+        elif dist == 'squares': v = Fraction(rng.randint(1, 40) ** 2, 16)
+        elif dist == 'ties': v = Fraction(rng.choice([1, 2, 2, 3, 5, 8, 8, 8, 13]))
+        elif dist == 'uniform': v = Fraction(rng.randint(-500, 500), 8)
+        else: v = Fraction(int((rng.gauss(-3, 1) if rng.random() < .5 else rng.gauss(4, .5)) * 32), 32)
+        data.append(v)
+    for i in range(n):
+        if rng.random() < .07: data[i] = None
+    sel = [int(rng.random() < .85) for _ in range(n)] if rng.random() < .4 else []
+    act = [data[i] for i in range(n) if data[i] is not None and (not sel or sel[i])]
+    if len(set(act)) < 3: data[0], data[1], data[2] = Fraction(1), Fraction(2), Fraction(5); sel = []
+    act = sorted(set(data[i] for i in range(n) if data[i] is not None and (not sel or sel[i])))
+    lo, hi = act[0], act[-1]
+    yq = [Fraction(k, 4) for k in range(-16, 17, 2)] + [Fraction(rng.randint(-700, 700), 128) for _ in range(6)] + [Fraction(-11), Fraction(11), Fraction(21, 2), None]
+    zq = [act[rng.randrange(len(act))] for _ in range(6)] + [(act[i] + act[i + 1]) / 2 for i in rng.sample(range(len(act) - 1), min(5, len(act) - 1))]
+    zq = sorted(zq) + [lo - 1, hi + 1, lo - (hi - lo), hi + (hi - lo) * 3, None]
+    psi = []; bounds = []
+    if mode == 1:
+        kind = rng.choice(['lognormal', 'random'])
+        if kind == 'lognormal':
+            m, sg = rng.choice([1.0, 2.5, 10.0]), rng.choice([0.3, 0.6, 1.0])
+            f = 1.0; psi = [m]
+            for i in range(1, nb): f *= i; psi.append(m * (-sg) ** i / math.sqrt(f))
+        else:
+            psi = [rng.randint(-8, 8) / 4.0] + [-rng.randint(1, 8) / 2.0] + [rng.randint(-8, 8) / 8.0 for _ in range(nb - 2)]
+        psi = [Fraction(x) for x in psi]
+        bounds = [None] * 8
+        zq = [Fraction(rng.randint(-400, 400), 16) for _ in range(10)]; zq = sorted(zq) + [None]
+    ctx.dist('anam_fit' if mode == 0 else 'anam_given'); ctx.dist('anam_nb%d' % nb); ctx.dist('anam_' + dist)
+    if sel: ctx.dist('anam_selection')
+    if any(x is None for x in data): ctx.dist('anam_NA')
+    py = {'mode': mode, 'nb': nb, 'flagBound': flagBound, 'data': data, 'sel': sel, 'yq': yq, 'zq': zq}
+    case = [2, mode, nb, flagBound, [dy(x) for x in data], sel, [dy(x) for x in yq], [dy(x) for x in zq], [dy(x) for x in psi], [dy(x) for x in bounds]]
+    return py, case
+
+def anam_model_case(py, im):
+    if im[0] != 0: return None
+    c = py['case']
+    rc, psi, az, ay, pz, py_, sq = im[0:7]
+    if any(x == [] for x in psi): return None
+    # model queries: the case's own queries, then a sample of the data values (for the Db-level columns)
+    n = len(c[4]); act = [i for i in range(n) if c[4][i] != [] and (not c[5] or c[5][i])]
+    act.sort(key=lambda i: undy(c[4][i]))
+    step = max(1, len(act) // 14)
+    py['dq'] = sorted(set(act[::step] + act[:2] + act[-2:]))
+    return [2, c[3], psi, sq, az, ay, pz, py_, c[6], c[7] + [c[4][i] for i in py['dq']]]
+
+def check_anam(ctx, py, im, mo, site):
+    c = py['case']; nb = py['nb']
+    rc, psi, az, ay, pz, pyi, sq, t2r_i, r2t_i, r1, ycol, r2, zcol, r3, n3, r4, n4, loccol = im
+    t2r_m, r2t_m, dzmax = mo
+    dzmax = float(unq(dzmax))
+    azv = [undy(az[0]), undy(az[1])]; ayv = [undy(ay[0]), undy(ay[1])]; pzv = [undy(pz[0]), undy(pz[1])]
+    yq = py['yq']; zq = py['zq']; data = py['data']; sel = py['sel']; n = len(data)
+    zspan = float(abs(undy(t2r_i[8]) - undy(t2r_i[6]))) if t2r_i[8] != [] and t2r_i[6] != [] else 1.0
+    # --- forward values
+    t2r_i = vd(t2r_i)
+    for k, y in enumerate(yq):
+        if y is None:
+            if t2r_i[k] is not None: site.spec.append(('AnamHermite:undefined-in', 'transformToRawValue(undefined) = %s' % fl(t2r_i[k]))); return
+            continue
+        m, sabs = unq(t2r_m[k][0]), float(unq(t2r_m[k][1]))
+        site.close('transformToRawValue(%s)' % float(y), t2r_i[k], m, 1e-12 * nb, sabs + abs(float(m)))
+    # --- inverse values
+    r2t_i = vd(r2t_i)
+    dq = py['dq']
+    allz = zq + [data[i] for i in dq]
+    for k, z in enumerate(allz):
+        if k >= len(zq):
+            # data value: the Db-level column must carry the same number
+            i = dq[k - len(zq)]
+            iv = undy(ycol[i]) if r1 == 0 else None
+        else:
+            iv = r2t_i[k]
+        if z is None:
+            if iv is not None: site.spec.append(('AnamHermite:undefined-in', 'rawToTransformValue(undefined) = %s' % fl(iv))); return
+            continue
+        ent = r2t_m[k]
+        if ent == [-1]: site.drift.append('model bisection out of fuel'); continue
+        ym, zback_m, br, core, marg, sabs = unq(ent[0]), unq(ent[1]), ent[2], ent[3], ent[4], float(unq(ent[5]))
+        if iv is None: site.spec.append(('AnamHermite:rawToTransformValue-undefined', 'rawToTransformValue(%s) undefined' % float(z))); return
+        noise = 1e-12 * nb * (sabs + abs(float(z)))
+        if core:
+            if float(unq(marg)) <= 10 * noise or abs(float(ym)) >= 10.0 - 1e-6 or abs(float(iv)) >= 10.0 - 1e-6:
+                # a decision closer to its threshold than the round-off of the double evaluation, or the scan at its last step
+                # (100 * 0.1 accumulated in binary64 is below 10, exactly it is above): excluded
+                site.tie = getattr(site, 'tie', 0) + 1; continue
+            if br != []:
+                a, b, za, zb = [float(unq(x)) for x in br]
+                toly = 1e-9 + (b - a) * 4 * noise / max(zb - za, 1e-300) if zb - za > 1e-10 else 1e-9 + (b - a)
+                if abs(float(iv) - float(ym)) > toly * (1 + abs(float(ym))):
+                    site.drift.append('rawToTransformValue(%s): impl %.15g model %.15g (tolerance %.3g)' % (float(z), float(iv), float(ym), toly))
+            else:
+                site.close('rawToTransformValue(%s)' % float(z), iv, ym, 1e-12)
+        else:
+            site.close('rawToTransformValue(%s) [outside practical interval]' % float(z), iv, ym, 1e-9, 1.0)
+    # --- properties on impl (fitted anamorphosis with bounds: the validity interval is [az.min, az.max])
+    if py['mode'] == 0 and py['flagBound']:
+        # Db level: raw -> Gaussian -> raw returns the starting values inside the validity interval, to the accuracy of the stopping rule
+        if r1 != 0 or r2 != 0:
+            site.spec.append(('AnamHermite:db-transform-fails', 'rawToGaussian returns %d, gaussianToRaw returns %d' % (r1, r2))); return
+        yc = vd(ycol); zc = vd(zcol)
+        for i in range(n):
+            z = data[i]
+            masked = bool(sel) and not sel[i]
+            if z is None or masked:
+                if z is None and not masked and (yc[i] is not None or zc[i] is not None):
+                    site.spec.append(('AnamHermite:undefined-in', 'sample %d undefined but transformed to %s / %s' % (i, fl(yc[i]), fl(zc[i])))); return
+                continue
+            if yc[i] is None or zc[i] is None:
+                site.spec.append(('AnamHermite:db-transform-undefined', 'active sample %d (z = %s) left undefined' % (i, float(z)))); return
+            if not (azv[0] <= z <= azv[1]) or i not in dq: continue
+            ent = r2t_m[len(zq) + dq.index(i)]
+            if ent == [-1]: continue
+            br = ent[2]; sabs = float(unq(ent[5]))
+            acc = max(dzmax, 0.0)
+            if br != []:
+                a, b, za, zb = [float(unq(x)) for x in br]; acc = max(acc, zb - za)
+            tol = 2 * acc + 1e-11 * nb * (sabs + abs(float(z))) + 1e-9 * (abs(float(z)) + zspan)
+            if abs(float(zc[i]) - float(z)) > tol:
+                site.spec.append(('AnamHermite:raw-gaussian-raw-roundtrip', 'sample %d: z = %.12g inside the validity interval [%.6g, %.6g], back-transformed %.12g (|diff| %.3g > accuracy of the stopping rule %.3g)'
+                                  % (i, float(z), float(azv[0]), float(azv[1]), float(zc[i]), abs(float(zc[i]) - float(z)), tol)))
+                return
+        # monotone inverse on the sorted data
+        pairs = sorted((float(data[i]), float(yc[i])) for i in range(n) if data[i] is not None and (not sel or sel[i]))
+        for (z1, y1), (z2, y2) in zip(pairs, pairs[1:]):
+            if y2 < y1 - 1e-9:
+                site.spec.append(('AnamHermite:rawToTransformValue-not-monotone', 'z %.12g -> y %.12g but z %.12g -> y %.12g' % (z1, y1, z2, y2))); return
+        # outside the absolute interval: the bound
+        for k, z in enumerate(zq):
+            if z is None: continue
+            if z < azv[0] and r2t_i[k] != ayv[0]: site.spec.append(('AnamHermite:bound', 'z = %s below az.min but y = %s (ay.min = %s)' % (float(z), fl(r2t_i[k]), fl(ayv[0])))); return
+            if z > azv[1] and r2t_i[k] != ayv[1]: site.spec.append(('AnamHermite:bound', 'z = %s above az.max but y = %s (ay.max = %s)' % (float(z), fl(r2t_i[k]), fl(ayv[1])))); return
+        # the same round trip through the locator-based entry points
+        if r3 != 0 or n3 != 1:
+            site.spec.append(('AAnam:rawToGaussianByLocator', 'returns %d, %d new variable(s)' % (r3, n3))); return
+        if r4 != 0 or n4 != 1:
+            site.spec.append(('AAnam:gaussianToRawByLocator', 'AAnam::gaussianToRawByLocator returns %d and creates %d variable(s): the back-transform by locator never runs '
+                              '(no transformation option set: setFlagVars(true) missing, and the direction flag is ZToY)' % (r4, n4)))
+            return
+        lc = vd(loccol)
+        for i in range(n):
+            z = data[i]
+            if z is None or (sel and not sel[i]) or not (azv[0] <= z <= azv[1]): continue
+            if lc[i] is None or abs(float(lc[i]) - float(zc[i])) > 1e-6 * (abs(float(z)) + zspan):
+                site.spec.append(('AAnam:gaussianToRawByLocator', 'sample %d: back-transform by locator %s, by name %s' % (i, fl(lc[i]), fl(zc[i])))); return
+
+# ----------------------------------------------------------------------------- kind 3: normal score
+def gen_ns(ctx, rng, quick):
+    n = rng.randint(1, 25 if quick else 120)
+    dist = rng.choice(['distinct', 'ties', 'heavy-ties'])
+    data = []
+    for _ in range(n):
+        v = Fraction(rng.randint(-1000, 1000), 8) if dist == 'distinct' else Fraction(rng.randint(0, 6 if dist == 'ties' else 2))
+        data.append(v if rng.random() > .12 else None)
+    w = rng.random()
+    if w < .55: wt = []
+    elif w < .8: wt = [Fraction(rng.randint(1, 16), 4) for _ in range(n)]
+    elif w < .93: wt = [Fraction(rng.randint(0, 3)) for _ in range(n)]
+    else: wt = [Fraction(rng.randint(-1, 4)) for _ in range(n)]
+    ctx.dist('ns_' + dist); ctx.dist('ns_weights' if wt else 'ns_noweights')
+    return {'data': data, 'wt': wt}, [3, [dy(x) for x in data], [dy(x) for x in wt]]
+
+def check_ns(ctx, py, im, mo, site):
+    data, wt = py['data'], py['wt']
+    scores = vd(im[0])
+    if mo[0] == 0:
+        if im[1] != 0: site.spec.append(('normalScore:refusal', 'model: negative weight of a defined sample or non-positive total, impl returns %d scores' % im[1]))
+        return
+    if len(scores) != len(data): site.spec.append(('normalScore:size', 'impl returns %d scores for %d samples' % (len(scores), len(data)))); return
+    probs = [unq(x) for x in mo[1]]
+    for i, (s, p) in enumerate(zip(scores, probs)):
+        if (s is None) != (p is None):
+            site.spec.append(('normalScore:undefined', 'sample %d: value %s, impl score %s, model probability %s' % (i, fl(data[i]), fl(s), fl(p)))); return
+        if p is None: continue
+        p = float(p)
+        ok = (float(s) == -10.0) if p <= 0 else (float(s) == 10.0) if p >= 1 else abs(Phi(float(s)) - p) <= 2e-6
+        if not ok:
+            site.spec.append(('normalScore:rank', 'sample %d (value %s): impl score %.9g i.e. cdf %.9g, rank probability of the stable (value, position) order %.9g' % (i, fl(data[i]), float(s), Phi(float(s)), p)))
+            return
+    # order preservation on impl
+    d = [(data[i], i, float(scores[i])) for i in range(len(data)) if data[i] is not None]
+    d.sort()
+    for (v1, i1, s1), (v2, i2, s2) in zip(d, d[1:]):
+        if s2 < s1: site.spec.append(('normalScore:not-monotone', 'value %s (pos %d) score %.9g, value %s (pos %d) score %.9g' % (fl(v1), i1, s1, fl(v2), i2, s2))); return
+
+# ----------------------------------------------------------------------------- kind 4: AnamEmpirical
+def gen_emp(ctx, rng, quick):
+    n = rng.randint(3, 30 if quick else 150)
+    dist = rng.choice(['distinct', 'ties', 'skewed'])
+    data = []
+    for _ in range(n):
+        v = Fraction(rng.randint(-2000, 2000), 16) if dist == 'distinct' else Fraction(rng.randint(0, 5)) if dist == 'ties' else Fraction(rng.randint(1, 30) ** 3, 32)
+        data.append(v if rng.random() > .1 else None)
+    if sum(1 for x in data if x is not None) < 2: data[0], data[1] = Fraction(1), Fraction(3)
+    act = sorted(x for x in data if x is not None)
+    yq = [Fraction(k, 4) for k in range(-12, 13, 3)] + [Fraction(rng.randint(-300, 300), 64) for _ in range(4)] + [None]
+    zq = [act[rng.randrange(len(act))] for _ in range(4)] + [(act[i] + act[i + 1]) / 2 for i in range(0, len(act) - 1, max(1, len(act) // 4))] + [act[0] - 1, act[-1] + 1, None]
+    ctx.dist('emp_' + dist)
+    return {'data': data, 'yq': yq, 'zq': zq}, [4, [dy(x) for x in data], [dy(x) for x in yq], [dy(x) for x in zq]]
+
+def emp_model_case(py, im):
+    if im[0] != 0 or len(im) < 3: return None
+    c = py['case']
+    return [4, im[1], im[2], c[2], c[3] + [x for x in c[1]]]
+
+def check_emp(ctx, py, im, mo, site):
+    data, yq, zq = py['data'], py['yq'], py['zq']
+    rc, ZD, YD, t2r_i, r2t_i, ycol, zcol, az, ay = im
+    ZD = vd(ZD); YD = vd(YD); act = sorted(x for x in data if x is not None); nd = len(act)
+    if ZD != act: site.spec.append(('AnamEmpirical:fit-table', 'ZDisc is not the sorted list of defined data')); return
+    for k in range(nd):
+        p = (k + 1) / (nd + 1.0)
+        if abs(Phi(float(YD[k])) - p) > 2e-6: site.spec.append(('AnamEmpirical:fit-table', 'YDisc[%d] = %.9g, cdf %.9g, expected rank probability %.9g' % (k, float(YD[k]), Phi(float(YD[k])), p))); return
+    t2r_i = vd(t2r_i); r2t_i = vd(r2t_i); t2r_m, r2t_m = mo
+    span = float(act[-1] - act[0]) + 1.0
+    for k, y in enumerate(yq):
+        if y is None:
+            if t2r_i[k] is not None: site.spec.append(('AnamEmpirical:undefined-in', 'gaussianToRawVector(undefined) = %s' % fl(t2r_i[k])))
+            continue
+        site.close('AnamEmpirical transformToRawValue(%s)' % float(y), t2r_i[k], unq(t2r_m[k]), 1e-12, span)
+    for k, z in enumerate(zq):
+        if z is None:
+            if r2t_i[k] is not None: site.spec.append(('AnamEmpirical:undefined-in', 'rawToGaussianVector(undefined) = %s' % fl(r2t_i[k])))
+            continue
+        site.close('AnamEmpirical rawToTransformValue(%s)' % float(z), r2t_i[k], unq(r2t_m[k][0]), 1e-12, 10.0)
+    # property on impl: raw -> Gaussian -> raw on the data (ties included), monotone
+    yc = vd(ycol); zc = vd(zcol)
+    for i, z in enumerate(data):
+        if z is None:
+            if yc[i] is not None or zc[i] is not None: site.spec.append(('AnamEmpirical:undefined-in', 'undefined sample %d transformed' % i)); return
+            continue
+        if zc[i] is None or abs(float(zc[i]) - float(z)) > 1e-9 * span:
+            site.spec.append(('AnamEmpirical:raw-gaussian-raw-roundtrip', 'sample %d: z = %.12g, y = %s, back %s' % (i, float(z), fl(yc[i]), fl(zc[i])))); return
+        site.close('AnamEmpirical data roundtrip model[%d]' % i, zc[i], unq(r2t_m[len(zq) + i][1]), 1e-11, span)
+    pairs = sorted((float(data[i]), float(yc[i])) for i in range(len(data)) if data[i] is not None)
+    for (z1, y1), (z2, y2) in zip(pairs, pairs[1:]):
+        if y2 < y1: site.spec.append(('AnamEmpirical:not-monotone', 'z %.9g -> %.9g, z %.9g -> %.9g' % (z1, y1, z2, y2))); return
+
+# ----------------------------------------------------------------------------- kind 5: Rotation
+def gen_rot(ctx, rng, quick):
+    ndim = rng.choice([2, 2, 3])
+    mode = 0 if rng.random() < .75 else 1
+    if mode == 0:
+        ang = [Fraction(rng.choice([0, 30, 45, 90, -60, 135, 180, 270, 10, 359, 721, -17]) * 4 + rng.choice([0, 0, 1, 3]), 4) for _ in range(ndim if ndim == 3 else 1)]
+        if rng.random() < .15: ang = [Fraction(0)] * len(ang)
+        arg = [dy(a) for a in ang]
+    else:
+        import itertools
+        perm = list(range(ndim)); rng.shuffle(perm)
+        sg = [rng.choice([-1, 1]) for _ in range(ndim)]
+        M = [[sg[i] if perm[i] == j else 0 for j in range(ndim)] for i in range(ndim)]
+        if rng.random() < .3: M[0][0] += 1      # not a rotation: must be refused
+        arg = [dy(M[i][j]) for j in range(ndim) for i in range(ndim)]   # column-major
+    vecs = [[Fraction(rng.randint(-4000, 4000), 16) for _ in range(ndim)] for _ in range(4)]
+    ctx.dist('rot_%dd' % ndim); ctx.dist('rot_angles' if mode == 0 else 'rot_matrix')
+    return {'ndim': ndim, 'mode': mode, 'vecs': vecs}, [5, ndim, mode, arg, [[dy(x) for x in v] for v in vecs]]
+
+def rot_model_case(py, im):
+    return [5, py['ndim'], im[1], im[2], im[3], py['case'][4]]
+
+def check_rot(ctx, py, im, mo, site):
+    rc, flag, M, Mi, res = im
+    nd = py['ndim']; Md = md(M); Mid = md(Mi)
+    for i in range(nd):
+        for j in range(nd):
+            if Mid[i][j] != Md[j][i]: site.spec.append(('Rotation:inverse-not-transpose', '_rotInv(%d,%d) = %s, _rotMat(%d,%d) = %s' % (i, j, fl(Mid[i][j]), j, i, fl(Md[j][i])))); return
+    resid = vq(mo[1])
+    for k, nm in enumerate(['Mt.M - I', 'M.Mt - I', 'Minv - Mt']):
+        if float(resid[k]) > 1e-9: site.spec.append(('Rotation:certificate', 'exact residual max|%s| = %.3g' % (nm, float(resid[k])))); return
+    for k, v in enumerate(py['vecs']):
+        d_i, b_i = vd(res[k][0]), vd(res[k][1]); d_m, b_m = vq(mo[0][k][0]), vq(mo[0][k][1])
+        sc = max(abs(float(x)) for x in v) + 1.0
+        site.vec('rotateDirect[%d]' % k, d_i, d_m, 1e-13, sc); site.vec('rotateInverse(rotateDirect)[%d]' % k, b_i, b_m, 1e-13, sc)
+        for a, b in zip(b_i, v):
+            if abs(float(a) - float(b)) > 1e-12 * sc: site.spec.append(('Rotation:direct-inverse-roundtrip', 'v = %s, back = %s' % ([float(x) for x in v], [float(x) for x in b_i]))); return
+
 # ----------------------------------------------------------------------------- driver
 def run(ctx):
     quick = ctx.quick()
@@ -166,7 +489,8 @@ def run(ctx):
     if runner is None or exe is None:
         print('ERROR: model runner or harness does not build'); sys.exit(3)
     rng = ctx.rng
-    gens = [(gen_pca, 120 if quick else 1500)]
+    gens = [(gen_pca, 120 if quick else 1500), (gen_hermite, 120 if quick else 1500), (gen_anam, 40 if quick else 400),
+            (gen_ns, 80 if quick else 1000), (gen_emp, 50 if quick else 600), (gen_rot, 60 if quick else 600)]
     pys = []
     for line in load_corpus(ctx):
         pys.append({'kind': line[0], 'case': line, 'corpus': True})
@@ -195,6 +519,7 @@ def run(ctx):
             print('ERROR: model rejected a case: %s' % sx_str(mc)[:300]); sys.exit(3)
         site = Site()
         CHECK[py['kind']](ctx, py, im, mo, site)
+        ctx.cov['tie_excluded'] += getattr(site, 'tie', 0)
         if site.excluded:
             ctx.cov['tie_excluded'] += 1; ctx.count(None, False); continue
         ctx.count(sx_str(mc)[:3000])
@@ -226,8 +551,9 @@ def load_corpus(ctx):
     return [sx_parse(l) for l in open(p) if l.strip() and not l.startswith('#')]
 
 KIND_NAME = {0: 'PCA', 1: 'hermitePolynomials', 2: 'AnamHermite', 3: 'normalScore', 4: 'AnamEmpirical', 5: 'Rotation'}
-MODEL_CASE = {0: lambda py, im: pca_model_case_any(py, im)}
-CHECK = {0: check_pca}
+MODEL_CASE = {0: lambda py, im: pca_model_case_any(py, im), 1: hermite_model_case, 2: anam_model_case,
+              3: lambda py, im: py['case'], 4: emp_model_case, 5: rot_model_case}
+CHECK = {0: check_pca, 1: check_hermite, 2: check_anam, 3: check_ns, 4: check_emp, 5: check_rot}
 
 def pca_model_case_any(py, im):
     if 'mode' not in py:    # corpus line
